@@ -213,8 +213,11 @@ def body():
                 for p in eprogs:
                     rjobs.append((proto, sp + "_d2", role, t, p))
     if q:
+        # quick: a sample of everything, plus -- deterministically -- every edit that empties a field or sets a length to 0 / 1 in the short messages
+        # (key exchange, CertificateVerify, CertificateRequest, Finished, ServerHelloDone), with consistent and with stale outer lengths
+        must = [j for j in rjobs if j[3] in (16, 15, 12, 13, 14, 20) and j[4][0][1] in ("empty", "len=") and (j[4][0][1] == "empty" or j[4][0][2] in (0, 1))]
         rng.shuffle(rjobs)
-        rjobs = rjobs[:160]
+        rjobs = rjobs[:160] + [j for j in must if j not in rjobs[:160]]
     rdone = 0
     with cf.ProcessPoolExecutor(14) as ex:
         futs = {}
